@@ -101,8 +101,8 @@ fn b_ne(v: &[bool]) -> bool {
   v[0] == (v[1] && !v[2])
 }
 fn b_range(v: &[bool]) -> bool {
-  // [incl, excl, upper]
-  v[0] == (v[1] || v[2]) && (!v[1] || v[0])
+  // [incl, excl, upper]: the two differ only at the upper bound, which the exclusive range does not admit
+  v[0] == (v[1] || v[2]) && (!v[1] || v[0]) && !(v[1] && v[2])
 }
 fn b_eq2(v: &[bool]) -> bool {
   v[0] == v[1]
@@ -308,8 +308,13 @@ pub fn run(ctx: &Ctx) {
           )
         }
         3 => {
-          let l = t.range(-6, 10) as i128;
-          let u = l + 1 + t.below(6) as i128;
+          let (l, u) = if t.chance(1, 4) {
+            // boundaries around zero and the sign change
+            *t.pick(&[(-3i128, 0i128), (-1, 0), (-1, 1), (0, 1), (-2, -1), (0, 2)])
+          } else {
+            let l = t.range(-6, 10) as i128;
+            (l, l + 1 + t.below(6) as i128)
+          };
           let (l, u) = if !json && t.chance(1, 5) { (l - 100000, u + (1i128 << 40)) } else { (l, u) };
           (
             "range",
@@ -319,7 +324,7 @@ pub fn run(ctx: &Ctx) {
               Ty(vec![Ty1::plain(Ty2::Lit(Lit::int(u)))]),
             ],
             b_range,
-            "acc(l..u) = acc(l...u) or acc(u); acc(l...u) implies acc(l..u)",
+            "acc(l..u) = acc(l...u) or acc(u); acc(l...u) implies acc(l..u); never acc(l...u) and acc(u)",
           )
         }
         4 => {
